@@ -177,6 +177,9 @@ def run(ctx, res):
     vlib.build_cli()
     mc = vlib.tlc("MC_Nitrogql", "MC_Nitrogql.cfg" if ctx.quick else "MC_Nitrogql_thorough.cfg", workdir=ctx.work, workers=8, timeout=1500, xmx="6g")
     res.add_tlc(mc)
+    live = vlib.tlc("MC_Nitrogql", "MC_Nitrogql_live.cfg", workdir=ctx.work, workers=8, timeout=900)     # PipelineTerminates under weak fairness
+    res.add_tlc(live)
+    res.extra["liveness_pipeline_terminates_states"] = live.distinct
     g = vlib.tlc("MC_Nitrogql", "Gen_C18_quick.cfg" if ctx.quick else "Gen_C18_thorough.cfg", workdir=ctx.work, workers=8, timeout=1500, xmx="6g")
     res.add_tlc(g)
     seen, projects = set(), []
